@@ -1115,6 +1115,19 @@ def rule_BYTEWIN(ctx):
         for x in own_walk(f.node):
             if isinstance(x, ast.Call) and isinstance(x.func, ast.Attribute) and x.func.attr == 'tobytes':
                 n += 1
+        # the bytes of a WHOLE store that are then searched (inside store-level search code): there is no window at all, so a match
+        # may start before start, reach past end or sit in the zero padding of a partial last byte
+        if f.cls == 'BitStore' and set(f.params()) & {'start', 'end'}:
+            for t in own_walk(f.node):
+                if isinstance(t, ast.Call) and isinstance(t.func, ast.Attribute) and t.func.attr == 'tobytes' and not isinstance(t.func.value, ast.Subscript) \
+                        and ast.unparse(t.func.value) in ('self._bitarray', 'self'):
+                    holder = [k for k, vs in defs.items() if any(t is y for v in vs for y in ast.walk(v))]
+                    searched = any(isinstance(y, ast.Call) and isinstance(y.func, ast.Attribute) and y.func.attr in ('find', 'rfind', 'index', 'rindex', 'count')
+                                   and (any(t is z for z in ast.walk(y.func.value)) or (isinstance(y.func.value, ast.Name) and y.func.value.id in holder))
+                                   for y in own_walk(f.node))
+                    if searched:
+                        r.fail(f.key, t, f'{f.name} searches the bytes of the whole store ({norm(t)}) although it is given a window [start, end): a match can '
+                               'reach past the end of the window, and tobytes() pads a partial last byte with zeros that a pattern can match', loc=f.loc(t))
         if not tb:
             continue
         # is the byte string searched?  (directly, or through the local it is assigned to)
